@@ -454,10 +454,39 @@ func (p *pathCtx) loadSymPtr(sp symPtr) value {
 		}
 		return p.mkBool(r)
 	}
-	last, kind := p.intTerm(sp.base[len(sp.base)-1])
-	r := last
-	for k := len(sp.base) - 2; k >= 0; k-- {
+	_, kind := p.intTerm(sp.base[len(sp.base)-1])
+	// sparse tables (e.g. strings.asciiSpace): start from the most frequent concrete value and
+	// only test the indices that differ from it
+	counts := map[uint64]int{}
+	allConc := true
+	for _, e := range sp.base {
+		if _, u, ok := intKindOf(e); ok {
+			counts[u]++
+		} else {
+			allConc = false
+		}
+	}
+	var def value = sp.base[len(sp.base)-1]
+	if allConc {
+		best, bestN := uint64(0), -1
+		for u, n := range counts {
+			if n > bestN {
+				best, bestN = u, n
+			}
+		}
+		def = concreteInt(kind, best)
+	}
+	r, _ := p.intTerm(def)
+	for k := len(sp.base) - 1; k >= 0; k-- {
 		t, _ := p.intTerm(sp.base[k])
+		if t == r {
+			continue
+		}
+		if allConc {
+			if dt, _ := p.intTerm(def); dt == t {
+				continue
+			}
+		}
 		r = ts.Ite(ts.Eq(sp.idx, ts.BV(uint64(k), 64)), t, r)
 	}
 	return p.mkInt(r, kind)
